@@ -437,6 +437,9 @@ pub fn c10_case(ctx: &mut Ctx, tape: &[u8]) -> CaseResult {
     let mut seen: BTreeSet<(u64, u64)> = BTreeSet::new();
     let purpose_name = ["spend", "mint", "cert", "reward", "vote", "propose"];
     for (tag, index, marker) in &reds {
+        if let Some(m) = marker {
+            ensure!(!o.unlocked_markers.contains(m), "pointer/redeemer-on-item-not-script-locked/cert", "the builder accepted a Plutus witness for a certificate whose authorising credential is a key, and emits its redeemer ({}, {}); {}", tag, index, describe(&o));
+        }
         ensure!(seen.insert((*tag, *index)), "pointer/two-redeemers-share-a-pointer", "({}, {}) occurs twice; {}", tag, index, describe(&o));
         let item = o.script_items.iter().find(|it| it.marker == *marker && marker.is_some());
         let item = match item {
@@ -591,7 +594,17 @@ pub fn c18_case(ctx: &mut Ctx, tape: &[u8]) -> CaseResult {
         ensure!(needed_datums.contains(d) || o.extra_datums.contains(d), "witness/superfluous-datum", "datum {} is needed by no item and was not added as an extra datum; {}", hex::encode(&d[..d.len().min(40)]), describe(&o));
     }
     for (_, _, m) in &reds {
+        if let Some(mk) = m {
+            ensure!(!o.unlocked_markers.contains(mk), "witness/redeemer-for-item-not-script-locked/cert", "the builder accepted a Plutus witness for a certificate whose authorising credential is a key and emits its redeemer; {}", describe(&o));
+        }
         ensure!(o.script_items.iter().any(|i| i.marker == *m), "witness/superfluous-redeemer", "{}", describe(&o));
+    }
+    // a certificate locked by a script (the ledger's rule) that plain add() let in has no script in the transaction
+    if let Some(certs) = view.body().map_get(4) {
+        for c in set_items(certs) {
+            let cb = view.slice(c).to_vec();
+            ensure!(!o.unwitnessed_locked.contains(&cb), "witness/script-locked-certificate-admitted-without-witness", "certificate {} is authorised by a script credential, add() accepted it without a script witness after the script route was refused; {}", hex::encode(&cb), describe(&o));
+        }
     }
     // exact size prediction
     let (size, n_keys, n_boot) = signed_size(&view, &o).map_err(|e| Failure::new("engine/signed-size", e))?;
